@@ -93,10 +93,19 @@ impl VerbatimModuleSyntax {
         new_text: " type".into(),
         range: import_token_range.end().range(),
       });
+      // The fix is only offered if the `type` keyword of every inline type
+      // specifier can be located (the token range of a specifier spelled
+      // `type as as B` does not cover it).
+      let mut fixable = true;
       for named_import in type_only_named_import {
         // remove `type` from all these
         let tokens = named_import.tokens_fast(program);
-        let range = SourceRange::new(tokens[0].start(), tokens[1].start());
+        let (Some(first), Some(second)) = (tokens.first(), tokens.get(1))
+        else {
+          fixable = false;
+          break;
+        };
+        let range = SourceRange::new(first.start(), second.start());
         changes.push(LintFixChange {
           new_text: "".into(),
           range,
@@ -107,10 +116,14 @@ impl VerbatimModuleSyntax {
         CODE,
         Message::AllImportIdentsUsedInTypes,
         Some(Hint::ChangeImportToImportType.to_string()),
-        vec![LintFix {
-          description: FIX_DESC.into(),
-          changes,
-        }],
+        if fixable {
+          vec![LintFix {
+            description: FIX_DESC.into(),
+            changes,
+          }]
+        } else {
+          vec![]
+        },
       );
     } else {
       for specifier in type_only_usage {
@@ -188,10 +201,16 @@ impl VerbatimModuleSyntax {
         new_text: " type".into(),
         range: export_token_range.end().range(),
       });
+      let mut fixable = true;
       for named_import in type_only_named_export {
         // remove `type` from all these
         let tokens = named_import.tokens_fast(program);
-        let range = SourceRange::new(tokens[0].start(), tokens[1].start());
+        let (Some(first), Some(second)) = (tokens.first(), tokens.get(1))
+        else {
+          fixable = false;
+          break;
+        };
+        let range = SourceRange::new(first.start(), second.start());
         changes.push(LintFixChange {
           new_text: "".into(),
           range,
@@ -202,10 +221,14 @@ impl VerbatimModuleSyntax {
         CODE,
         Message::AllExportIdentsUsedInTypes,
         Some(Hint::ChangeExportToExportType.to_string()),
-        vec![LintFix {
-          description: FIX_DESC.into(),
-          changes,
-        }],
+        if fixable {
+          vec![LintFix {
+            description: FIX_DESC.into(),
+            changes,
+          }]
+        } else {
+          vec![]
+        },
       );
     } else {
       for specifier in type_only_usage {
